@@ -262,7 +262,18 @@ def step_set_inherited(ctx, data, doc_text, segs, value, pos, prefix, history):
         E.get(exp_b, holder_loc)["items"].append([E.key_image(pos.ref), E.value_image(value)])
         src_locs = pos_src_locs
         exp_a = E.apply_set(img0, src_locs, value) if src_locs else None
-        if actual != exp_b and actual != exp_a:
+        # (where among the mapping's own keys the override appears is not specified: it is compared at the end)
+        actual_b = copy.deepcopy(actual)
+        try:
+            items = E.get(actual_b, holder_loc)["items"]
+            ki = E.key_image(pos.ref)
+            mine = [kv for kv in items if kv[0] == ki]
+            if len(mine) == 1:
+                items.remove(mine[0])
+                items.append(mine[0])
+        except (KeyError, IndexError, TypeError):
+            pass
+        if actual_b != exp_b and actual != exp_a:
             ctx.violation(prefix + "/inherited-key/bystander-changed", {"case": case, "summary": "neither 'own override appended' (%r) nor "
                           "'shared source node updated' (%r)" % (E.diff(exp_b, actual)[:2], E.diff(exp_a, actual)[:2] if exp_a else None)})
             return True
